@@ -308,6 +308,7 @@ fn ilv_opts(thorough: bool) -> crate::ilv::IlvOpts {
         c10: false,
         cache: true,
         bound_two_calls: if thorough { Some(usize::MAX) } else { None },
+        epilogue: false,
         max_secs: if thorough { 300.0 } else { 20.0 },
         max_execs: if thorough { 50_000_000 } else { 2_000_000 },
     }
@@ -588,7 +589,9 @@ pub fn run(prop: &str, tier: &str, out: Option<&Path>) -> i32 {
         }
         "C01" | "C03" | "C21" => {
             let scs = crate::scenarios::generate(thorough as usize);
-            run_ilv(prop, tier, scs, ilv_opts(thorough), out)
+            let mut opts = ilv_opts(thorough);
+            opts.epilogue = prop == "C01";
+            run_ilv(prop, tier, scs, opts, out)
         }
         "C09" => {
             let mut cl = classings_std();
